@@ -223,8 +223,10 @@ def spellings(f):
             if all(tok and not any(ch.isspace() for ch in tok) for tok in t) and \
                     (len(t) >= 2 or not (t[0][:1] in "{[" and t[0][-1:] in "}]")):
                 out.append(("str-tokens", t))
-        # the mapping as a sequence of (key, value) pairs (parse_filter's Sequence branch)
-        out.append(("pairs", f))
+    else:
+        out.append(("tokens", []))       # `signac find` without filter arguments
+    # the mapping as a sequence of (key, value) pairs (parse_filter's Sequence branch)
+    out.append(("pairs", f))
     return out
 
 
@@ -285,6 +287,7 @@ def gen_inputs(tier, rng):
                 if k1 != k2 and qg_scalar(v1):
                     filters.append({k1: v1, k2: {"$exists": True}})
         filters.append({rng.choice(["a", "b", "doc.d"]): {"$regex": rng.choice(["/d", "a/$", "^/", "/", "/da"])}})
+        filters.append({})
         if i % 4 == 0:
             # integers that are not exactly representable as doubles (64-bit seeds), also as command-line tokens
             for j in jobs:
